@@ -8,12 +8,12 @@
 #include <stdio.h>
 #ifdef NANOLANG_VERIF
 /* Verification hook H3 (loader stage events).  Inert unless the environment
- * variable NANOLANG_VERIF_TRACE names a file: then one ndjson line per loader
+ * variable NANOLANG_VERIF_TRACE_LOADER names a file: then one ndjson line per loader
  * stage is appended to it (opened and closed per event, so that the lines
  * survive a crash of the loader). */
 #include <stdarg.h>
 static void nlv_loader_ev(const char *fmt, ...) {
-    const char *nlv_path = getenv("NANOLANG_VERIF_TRACE");
+    const char *nlv_path = getenv("NANOLANG_VERIF_TRACE_LOADER");
     if (!nlv_path || !nlv_path[0]) return;
     FILE *nlv_f = fopen(nlv_path, "a");
     if (!nlv_f) return;
